@@ -186,6 +186,13 @@ func (c *NoiseGrpcConn) ClientHandshake(_ context.Context, _ string,
 	}
 	c.ProxyConn = transportConn
 
+	// This object serves one connection after the other. Whatever part of
+	// a record the previous connection left unread must not be handed out
+	// as data of the new one.
+	c.nextMsgMtx.Lock()
+	c.nextMsg = nil
+	c.nextMsgMtx.Unlock()
+
 	// First, initialize a new noise machine with our static long term, and
 	// passphraseEntropy.
 	var err error
@@ -246,6 +253,13 @@ func (c *NoiseGrpcConn) ServerHandshake(conn net.Conn) (net.Conn,
 		return nil, nil, fmt.Errorf("invalid connection type")
 	}
 	c.ProxyConn = transportConn
+
+	// This object serves one connection after the other. Whatever part of
+	// a record the previous connection left unread must not be handed out
+	// as data of the new one.
+	c.nextMsgMtx.Lock()
+	c.nextMsg = nil
+	c.nextMsgMtx.Unlock()
 
 	// First, we'll initialize a new state machine with our static key,
 	// remote static key, passphrase, and also the authentication data.
